@@ -437,6 +437,8 @@ func Generate(seed uint64, prop, tier string) *Plan {
 					op.K, op.Conn = []string{"register", "enroll"}[r.Intn(2)], dialIdx
 					if op.K == "enroll" && r.Chance(1, 6) {
 						op.K = "enroll-other"
+					} else if nconn > 0 && r.Chance(1, 4) {
+						op.K, op.N = op.K+"-loop", r.Intn(nconn) // EventLoop.Register / EventLoop.Enroll of an accepted connection's loop
 					}
 					dialIdx++
 				default:
@@ -499,7 +501,7 @@ func addStartFault(r *runner.Rand, p *Plan, prop string) {
 		for _, u := range p.Users {
 			for _, op := range u.Ops {
 				switch op.K {
-				case "register", "enroll", "enroll-other":
+				case "register", "enroll", "enroll-other", "enroll-loop", "register-loop":
 					regs++
 					dups++
 				case "dup", "duplistener":
@@ -539,7 +541,7 @@ func addStartFault(r *runner.Rand, p *Plan, prop string) {
 	for _, u := range p.Users {
 		for _, op := range u.Ops {
 			switch op.K {
-			case "dup", "duplistener", "enroll", "enroll-other", "cenroll":
+			case "dup", "duplistener", "enroll", "enroll-other", "enroll-loop", "cenroll":
 				dups++
 			}
 		}
